@@ -3,6 +3,10 @@
 package osmpbf
 
 import (
+	"context"
+	"io"
+	"time"
+
 	"github.com/paulmach/osm"
 )
 
@@ -115,4 +119,58 @@ func oracleC06Damage(f PbfFile, kind int) {
 	vAssert(!res.Hung)
 	vAssert(res.Panic == nil)
 	vAssert(res.Err != nil)
+}
+
+type pbfCountingReader struct {
+	data []byte
+	pos  int
+}
+
+func (r *pbfCountingReader) Read(p []byte) (int, error) {
+	if r.pos >= len(r.data) {
+		return 0, io.EOF
+	}
+	n := copy(p, r.data[r.pos:])
+	r.pos += n
+	return n, nil
+}
+
+// C07: "A PBF ... scan can be stopped at any moment by Close ...: the call
+// returns without consuming the rest of the input, every later Scan returns
+// false, and Err reports ... the scanner-closed error after Close."
+//
+//@ func oracleC07Close
+//@   props C07
+//@   oracle
+func oracleC07Close(b PbfBlock, k int, procs int) {
+	f := PbfFile{}
+	if len(b.Nodes) == 0 {
+		b.Nodes = []PbfNode{{ID: 1}}
+	}
+	b.Ways, b.Rels = nil, nil
+	for i := 0; i < 80; i++ {
+		f.Blocks = append(f.Blocks, b)
+	}
+	data, _, _ := pbfBuild(f)
+	r := &pbfCountingReader{data: data}
+	s := New(context.Background(), r, pbfAbs(procs)%3+1)
+	stop := pbfAbs(k) % 3
+	n := 0
+	for n < stop && s.Scan() {
+		n++
+	}
+	done := make(chan struct{})
+	go func() { s.Close(); close(done) }()
+	select {
+	case <-done:
+	case <-time.After(5 * time.Second):
+		vAssert(false) // Close hangs
+		return
+	}
+	vAssert(r.pos < len(data)) // the rest of the input was not consumed
+	vAssert(!s.Scan())
+	vAssert(s.Err() == osm.ErrScannerClosed)
+	consumed := r.pos
+	time.Sleep(2 * time.Millisecond)
+	vAssert(r.pos == consumed && consumed < len(data)) // nothing keeps reading in the background
 }
